@@ -30,6 +30,7 @@ class C01(spec.Spec):
         want = observe.dobs(doc)
         observe.touch(doc)
         for o in (self.option_sets if opts is None else opts):
+            observe.export_decoy(self.fmt, **o)
             try:
                 text, d2 = self.roundtrip(doc, o)
             except Exception as e:
